@@ -104,6 +104,14 @@ impl<'a> GeneratorState<'a> {
                                 } else {
                                     0
                                 };
+                                // An operand that is still indexed by a borrowed Y can't be kept
+                                // across a call: the parameters give Y back
+                                if self.saved_y {
+                                    return Err(self.compiler_state.syntax_error(
+                                        "Code too complex for the compiler",
+                                        pos,
+                                    ));
+                                }
                                 if self.acc_in_use {
                                     self.sasm(PHA)?;
                                 }
